@@ -201,6 +201,50 @@ fn oracle_text(or: &mut Oracle, p: &Program, input: &Value) {
     }
 }
 
+/// The pipeline of `sierra-compile`: registry info, metadata, compile, print.
+fn casm_text(p: &Program) -> Result<String, String> {
+    use cairo_lang_sierra_to_casm::compiler::{SierraToCasmConfig, compile};
+    use cairo_lang_sierra_to_casm::metadata::calc_metadata;
+    use cairo_lang_sierra_type_size::ProgramRegistryInfo;
+    let r = catch(AssertUnwindSafe(|| -> Result<String, String> {
+        let info = ProgramRegistryInfo::new(p).map_err(|e| format!("registry: {:?}", e))?;
+        let md = calc_metadata(p, &info, Default::default()).map_err(|e| format!("metadata: {:?}", e))?;
+        let c = compile(p, &info, &md, SierraToCasmConfig { gas_usage_check: true, max_bytecode_size: usize::MAX })
+            .map_err(|e| format!("compile: {:?}", e))?;
+        Ok(c.to_string())
+    }));
+    match r {
+        Ok(x) => x,
+        Err(pm) => Err(panic_msg(pm)),
+    }
+}
+/// CASM equality (leg "casm-equality", explored): the CASM of a corpus program must not depend on
+/// how its ids are spelled (hashed names / canonical numbers with or without debug names) nor
+/// change through the felt252 round trip.  Returns false when the program as parsed does not
+/// compile stand-alone (contracts need the Starknet pipeline) - then nothing is compared.
+fn oracle_casm(or: &mut Oracle, p0: &Program, canon: &Program, name: &str) -> bool {
+    let Ok(base) = casm_text(p0) else { return false };
+    or.check("casm-equality");
+    let mut variants: Vec<(&str, Program)> = vec![("canonical ids", canon.clone()), ("canonical ids, no debug names", progs::strip(canon))];
+    let v = VersionId { major: 1, minor: 0, patch: 0 };
+    if let Ok(Ok(f)) = i_ser(v, v, canon) {
+        if let Ok(Some((_, _, back))) = i_de(&f) {
+            variants.push(("felt252 round trip", back));
+        }
+    }
+    if let Ok(Ok(t)) = catch(AssertUnwindSafe(|| ProgramParser::new().parse(&p0.to_string()).map_err(|_| ()))) {
+        variants.push(("text round trip", t));
+    }
+    for (what, q) in variants {
+        match casm_text(&q) {
+            Ok(c) if c == base => {}
+            Ok(_) => or.fail("casm-equality", format!("CASM differs for the same program with {}", what), json!({"corpus": name})),
+            Err(e) => or.fail("casm-equality", format!("program with {} does not compile: {}", what, trunc(&e, 300)), json!({"corpus": name})),
+        }
+    }
+    true
+}
+
 // ------------------------------------------------------------------ corpus
 fn walk(dir: &Path, suffix: &str, out: &mut Vec<PathBuf>, recurse: bool) {
     let Ok(rd) = std::fs::read_dir(dir) else { return };
@@ -578,9 +622,14 @@ fn main() {
     let pools = Pools { type_ids: type_ids.clone(), libfunc_ids: libfunc_ids.clone(), long_ids: long_ids.clone() };
 
     // ================================================================ oracle over the corpus
+    let mut casm_compiled = 0;
     for c in corpus.iter_mut() {
         let input = json!({"corpus": c.name});
         if let Some(p0) = &c.p0 {
+            // CASM equality on the stand-alone programs (quick: the small ones)
+            if (thorough || p0.statements.len() <= 400) && oracle_casm(&mut or, p0, &c.prog, &c.name) {
+                casm_compiled += 1;
+            }
             // text -> program -> text -> program
             oracle_text(&mut or, p0, &input);
             oracle_json(&mut or, p0, &input);
@@ -1174,6 +1223,7 @@ fn main() {
         "tier": tier,
         "corpus_text_programs": corpus_text_programs,
         "corpus_classes": corpus_classes,
+        "corpus_programs_compiled_to_casm": casm_compiled,
         "corpus_parse_failures": corpus_parse_failures,
         "corpus_in_coq_legs": corpus_in_coq_legs,
         "corpus_in_coq_names": corpus_in_coq_names,
